@@ -8,6 +8,7 @@ import time
 from fractions import Fraction
 
 from harness import common as C
+from harness import history as H
 from harness import impl, trees
 from harness.translate import t1_datatype
 
@@ -129,9 +130,18 @@ def build(case):
     taxa = {"id": "taxa", "type": "Taxa", "taxa": [
         {"id": names[j], "type": "Taxon", "attributes": {"date": dates[j]}} for j in to]}
     nwk = trees.newick(case["tree"], names)
-    if tr["kind"] == "unrooted":
+    if tr["kind"] == "unrooted" and tr.get("newick"):
+        # the same tree written down with its lengths in the newick string (keep_branch_lengths)
+        tree = {"id": "tree", "type": "UnRootedTreeModel", "newick": tr["newick"], "taxa": taxa,
+                "keep_branch_lengths": True,
+                "branch_lengths": impl.param_json("bl", [0.5] * (2 * n - 3))}
+    elif tr["kind"] == "unrooted":
         tree = {"id": "tree", "type": "UnRootedTreeModel", "newick": nwk, "taxa": taxa,
                 "branch_lengths": impl.param_json("bl", tr["bl"])}
+    elif tr.get("plain_heights") is not None:
+        # the same time tree held by a plain TimeTreeModel (internal heights are the parameter)
+        tree = {"id": "tree", "type": "TimeTreeModel", "newick": nwk, "taxa": taxa,
+                "internal_heights": impl.param_json("heights", tr["plain_heights"])}
     else:
         tree = {"id": "tree", "type": "ReparameterizedTimeTreeModel", "newick": nwk, "taxa": taxa,
                 "ratios": impl.param_json("ratios", tr["ratios"]),
@@ -172,7 +182,7 @@ def build(case):
         d["use_ambiguities"] = True
     elif case["tip"] == "states":
         d["use_tip_states"] = True
-    return TreeLikelihoodModel.from_json(d, {})
+    return H.tracked(TreeLikelihoodModel, d)
 
 
 def run_impl(case):
@@ -368,13 +378,49 @@ def run(tier, seed, replay=None):
             c, o, what = mism[0]
             rep.violation(f"C01:model-impl-differ:{key_of(c)}", what,
                           dict(case=c, broken="correspondence M_like(loglik_nuc) vs TreeLikelihoodModel()"), False)
+    # ---- same-object histories: evaluate, assign parameters, evaluate again == freshly built object
+    t0 = time.time()
+    nh, hist_found = 0, {}
+    hrng = random.Random(seed + 17)
+    ok_cases = [c for c, o in zip(cases, outs) if not isinstance(o, Exception)]
+    hrng.shuffle(ok_cases)
+    for c in ok_cases[:(60 if tier == "quick" else 400)]:
+        variants = [c]
+        if c["treem"]["kind"] != "unrooted":
+            try:     # the same tree as a plain TimeTreeModel
+                hts = [float(x) for x in build(c).tree_model.node_heights.detach()[c["n"]:]]
+                variants.append(dict(c, treem=dict(c["treem"], plain_heights=hts)))
+            except Exception:
+                pass
+        for v in variants:
+            try:
+                like = build(v)
+            except Exception:
+                continue
+            reads = [("branch_lengths", lambda o: o.tree_model.branch_lengths()),
+                     ("site_rates", lambda o: o.site_model.rates()), ("q", lambda o: o.subst_model.q()),
+                     ("node_heights", lambda o: getattr(o.tree_model, "node_heights", None)),
+                     ("site_probs", lambda o: o.site_model.probabilities())]
+            fs = H.run(like, lambda o: float(o().detach()), hrng, reads=reads, steps=2)
+            nh += 1
+            tk = "TimeTreeModel" if v["treem"].get("plain_heights") is not None else v["treem"]["kind"]
+            for f in fs:
+                k = f"C01:history:{tk}:{'+'.join(sorted(set(x.split('.')[0] for x in f['assigned'])))}"
+                hist_found.setdefault(k, (k, f"after the history {f['history']} the same TreeLikelihoodModel returns "
+                                             f"{f['on_same_object']} but a freshly built one returns {f['fresh_object']}",
+                                          dict(case=v, history=f)))
+    for f in hist_found.values():
+        rep.violation(*f)
+    rep.timings["histories"] = round(time.time() - t0, 2)
     rep.rule = ("all rooted binary topologies for 3..4 (quick) / 3..6 (thorough) taxa with random child order + random/"
                 "caterpillar/balanced trees to 8 (12) taxa; alignments over the 18-symbol alphabet (both cases) with "
                 "forced repeated columns; taxa list and sequence list independently permuted; {JC69,HKY,GTR} x "
                 "{constant,+mu,invariant,Weibull(K),Weibull(K)+inv} x {unrooted, time tree + strict/simple clock} x "
-                "{tip partials with/without ambiguities, tip states}; non-trivial = >= 3 taxa; distinct = distinct case")
+                "{tip partials with/without ambiguities, tip states}; + same-object histories (evaluate, assign 1-2 parameters, "
+                "read cached intermediates in random order, evaluate) against freshly built objects, time trees also as "
+                "plain TimeTreeModel; non-trivial = >= 3 taxa; distinct = distinct case")
     rep.extra = dict(input_distribution=dist, model_undefined=undefined, exhaustive_topologies=len(pool),
-                     traces_validated_against_impl=len(idx), mismatches=len(mism),
+                     traces_validated_against_impl=len(idx), mismatches=len(mism), histories=nh,
                      translator_units=["datatype tables -> gen/G_datatype.v"])
     return rep.finish()
 
